@@ -103,10 +103,9 @@ impl BigUint {
 					return Err(error()?);
 				}
 			}
-			Large(v) => {
-				// todo use correct method to get actual length excluding leading zeroes
-				if v.len() == 1 {
-					if let Ok(res) = usize::try_from(v[0]) {
+			Large(_) => {
+				if self.fits_in_u64() {
+					if let Ok(res) = usize::try_from(self.get(0)) {
 						res
 					} else {
 						return Err(error()?);
@@ -193,6 +192,15 @@ impl BigUint {
 		}
 	}
 
+	/// true if the value is below 2^64, i.e. all limbs above the lowest one
+	/// are zero (the limb vector may have leading zero limbs)
+	fn fits_in_u64(&self) -> bool {
+		match self {
+			Small(_) => true,
+			Large(value) => value.iter().skip(1).all(|&v| v == 0),
+		}
+	}
+
 	pub(crate) fn gcd<I: Interrupt>(mut a: Self, mut b: Self, int: &I) -> FResult<Self> {
 		while b >= 1.into() {
 			let r = a.rem(&b, int)?;
@@ -210,7 +218,7 @@ impl BigUint {
 		if b.is_zero() {
 			return Ok(Self::from(1));
 		}
-		if b.value_len() > 1 {
+		if !b.fits_in_u64() {
 			return Err(FendError::ExponentTooLarge);
 		}
 		a.pow_internal(b.get(0), int)
@@ -221,7 +229,7 @@ impl BigUint {
 		if self == 0.into() || self == 1.into() || n == &Self::from(1) {
 			return Ok(Exact::new(self, true));
 		}
-		if n.value_len() > 1 {
+		if !n.fits_in_u64() {
 			return Err(FendError::OutOfRange {
 				value: Box::new(n.format(&FormatOptions::default(), int)?.value),
 				range: Range {
